@@ -49,20 +49,40 @@ func (x *restrictor) decodedZero(t *idlgen.RType) *values.Value {
 	return idlgen.ZeroOf(t)
 }
 
+// unknownOV stands for "the original value next to this normal form could not be located" (a map entry whose key has another normal
+// form): the normal form is used in its place.
+var unknownOV = &values.Value{K: '?'}
+
+func subOV(ov *values.Value, i int) *values.Value {
+	if ov == unknownOV {
+		return unknownOV
+	}
+	if ov.IsNil() || i >= len(ov.E) {
+		return nil
+	}
+	return ov.E[i]
+}
+
+// fieldSet: is optional field i of the original record set (so that it is on the wire)?
+func fieldSet(f *idlgen.SField, ov, nv *values.Value, i int) bool {
+	if ov == unknownOV {
+		return refcodec.IsSet(f, nv.E[i])
+	}
+	return !ov.IsNil() && i < len(ov.E) && refcodec.IsSet(f, ov.E[i])
+}
+
 // restrictW: expected decoded value of a slot of type t holding (normal form) nv, written under state st.
 // env applies to the fields of THIS struct only (root).
 func (x *restrictor) restrictW(st sel, t *idlgen.RType, ov, nv *values.Value, env []envMask) *values.Value {
 	if nv.IsNil() || t.IsBase() {
 		return nv
 	}
-	sub1 := func(i int) *values.Value { // the original value next to the normal form (nil where the original is nil)
-		if ov.IsNil() || i >= len(ov.E) {
-			return nil
-		}
-		return ov.E[i]
-	}
+	sub1 := func(i int) *values.Value { return subOV(ov, i) }
 	switch t.Kind {
 	case idlgen.RStruct:
+		if ov != unknownOV && ov.IsNil() {
+			return nv // a nil struct pointer is written as the empty struct: nothing on the wire the mask could filter
+		}
 		sd := x.s.Structs[t.Sidx]
 		out := &values.Value{K: values.KRecord, E: make([]*values.Value, len(sd.Fields))}
 		for i, f := range sd.Fields {
@@ -76,7 +96,7 @@ func (x *restrictor) restrictW(st sel, t *idlgen.RType, ov, nv *values.Value, en
 				}
 			}
 			switch {
-			case f.Req == idlgen.Optional && (ov.IsNil() || !refcodec.IsSet(f, ov.E[i])):
+			case f.Req == idlgen.Optional && !fieldSet(f, ov, nv, i):
 				out.E[i] = nv.E[i] // not set: not on the wire whatever the mask says (the reader's initial value)
 			case keep || (f.Req == idlgen.Required && !x.o.zeroReq):
 				if !keep {
@@ -116,8 +136,8 @@ func (x *restrictor) restrictW(st sel, t *idlgen.RType, ov, nv *values.Value, en
 
 // origVal: the original value stored under the (normal form) key k of the original map ov
 func (x *restrictor) origVal(t *idlgen.RType, ov, k *values.Value) *values.Value {
-	if ov.IsNil() || ov.K != values.KMap {
-		return nil
+	if ov == unknownOV || ov.IsNil() || ov.K != values.KMap {
+		return unknownOV
 	}
 	for p := 0; p < ov.NPairs(); p++ {
 		if values.EqualCanon(ov.Key(p), k) {
@@ -131,7 +151,7 @@ func (x *restrictor) origVal(t *idlgen.RType, ov, k *values.Value) *values.Value
 			return ov.Val(0)
 		}
 	}
-	return nil
+	return unknownOV
 }
 
 // restrictR: expected object after a masked Read of the reference encoding of nv (unselected parts skipped:
@@ -140,18 +160,16 @@ func (x *restrictor) restrictR(st sel, t *idlgen.RType, ov, nv *values.Value) *v
 	if nv.IsNil() || t.IsBase() {
 		return nv
 	}
-	sub1 := func(i int) *values.Value {
-		if ov.IsNil() || i >= len(ov.E) {
-			return nil
-		}
-		return ov.E[i]
-	}
+	sub1 := func(i int) *values.Value { return subOV(ov, i) }
 	switch t.Kind {
 	case idlgen.RStruct:
+		if ov != unknownOV && ov.IsNil() {
+			return nv // the reference encoding of a nil struct pointer is the empty struct
+		}
 		sd := x.s.Structs[t.Sidx]
 		out := &values.Value{K: values.KRecord, E: make([]*values.Value, len(sd.Fields))}
 		for i, f := range sd.Fields {
-			if f.Req == idlgen.Optional && (ov.IsNil() || !refcodec.IsSet(f, ov.E[i])) {
+			if f.Req == idlgen.Optional && !fieldSet(f, ov, nv, i) {
 				out.E[i] = nv.E[i] // not on the wire
 			} else if sub, keep := st.child(step{kind: 'f', id: int64(f.ID)}); keep {
 				out.E[i] = x.restrictR(sub, f.Type, sub1(i), nv.E[i])
@@ -255,6 +273,50 @@ func (x *restrictor) zeroStructNonRequired(st sel, t *idlgen.RType, nv *values.V
 	case idlgen.RMap:
 		for p := 0; p < nv.NPairs(); p++ {
 			if sub, keep := st.child(keyStep(t.Key, nv.Key(p))); keep && x.zeroStructNonRequired(sub, t.Elem, nv.Val(p)) {
+				return true
+			}
+		}
+	}
+	return false
+}
+
+// zeroUnionRequired: under field_mask_zero_required, is a REQUIRED field of union/exception type with required members named by a
+// white-list path? The library cannot select it (union-field-white-unselectable), so the zero value `{}` is written for it, which no
+// strict reader accepts.
+func (x *restrictor) zeroUnionRequired(st sel, t *idlgen.RType, nv *values.Value) bool {
+	if nv.IsNil() || t.IsBase() || st.all || st.black || !x.o.zeroReq {
+		return false
+	}
+	switch t.Kind {
+	case idlgen.RStruct:
+		sd := x.s.Structs[t.Sidx]
+		if sd.Kind != 's' || nv.K != values.KRecord {
+			return false
+		}
+		for i, f := range sd.Fields {
+			sub, keep := st.child(step{kind: 'f', id: int64(f.ID)})
+			if !keep {
+				continue
+			}
+			if f.Type.Kind == idlgen.RStruct && x.s.Structs[f.Type.Sidx].Kind != 's' {
+				if f.Req == idlgen.Required && x.s.Structs[f.Type.Sidx].HasRequired() {
+					return true
+				}
+				continue
+			}
+			if x.zeroUnionRequired(sub, f.Type, nv.E[i]) {
+				return true
+			}
+		}
+	case idlgen.RList, idlgen.RSet:
+		for i, e := range nv.E {
+			if sub, keep := st.child(step{kind: 'i', id: int64(i)}); keep && x.zeroUnionRequired(sub, t.Elem, e) {
+				return true
+			}
+		}
+	case idlgen.RMap:
+		for p := 0; p < nv.NPairs(); p++ {
+			if sub, keep := st.child(keyStep(t.Key, nv.Key(p))); keep && x.zeroUnionRequired(sub, t.Elem, nv.Val(p)) {
 				return true
 			}
 		}
